@@ -899,6 +899,17 @@ def run(ctx):
                 ctx.violation(f'B ({kind}) is answered while an older message times out; correlator.get() has taken B out of the store and awaits the '
                               f'send_error hook for the older message ({hook_sleep} s); the connection is lost {reset_after} s into it: {msg}',
                               {'scenario': 'receiver_cancelled', 'kind': kind, 'hook_sleep': hook_sleep, 'reset_after': reset_after})
+    # ---- ... and with a hook that outlasts the time the teardown waits for the handling (socket_timeout): the session is replaced, and
+    #      the response still reaches the application when its hook returns
+    for kind in ('ok', 'segmented'):
+        obs = receiver_cancelled_session(8.0, 0.2, kind, socket_timeout=3.0)
+        ctx.traces += 1
+        ctx.case(('receiver_cancelled_slow_hook', kind), nontrivial=True)
+        msg = oracle_receiver_cancelled(obs)
+        if msg:
+            ctx.violation(f'B ({kind}) answered while an older message times out; the send_error hook takes 8 s, the connection is lost 0.2 s into it, '
+                          f'socket_timeout 3 s: {msg}', {'scenario': 'receiver_cancelled', 'kind': kind, 'hook_sleep': 8.0, 'reset_after': 0.2,
+                                                       'socket_timeout': 3.0})
     # ---- the sender cancelled at every point of a message (before / inside correlator.put() of each part): the real _dequeue_messages
     #      against Model/SenderCancel.v, whose rule the translator reads off the handler
     cancel_cases = []
@@ -963,7 +974,7 @@ def replay(ctx, path):
         print('replay: outcomes (time, log_id, kind):', obs['outcomes'])
         msg = oracle_cancel_in_sweep(obs)
     elif r.get('scenario') == 'receiver_cancelled':
-        obs = receiver_cancelled_session(r['hook_sleep'], r['reset_after'], r['kind'])
+        obs = receiver_cancelled_session(r['hook_sleep'], r['reset_after'], r['kind'], r.get('socket_timeout', 100.0))
         print('replay: outcomes (time, log_id, kind):', obs['outcomes'], '; response PDUs at the received hook:', len(obs['resp_pdus']))
         msg = oracle_receiver_cancelled(obs)
     elif r.get('scenario') == 'cancel_point':
